@@ -1458,6 +1458,12 @@ pub fn check_c09(prog: &NetProgram, res: &NetResult, info: &mut RunInfo) {
                     info.violate(Violation::new("C09", "late-reset", format!("module {} requested shutdown at {t} ns, reset ran at {} ns", module_path(prog, m), recs[rj].t)));
                     return;
                 }
+                // the shutdown takes effect at the end of the requesting event: no other module runs in between
+                if let Some(x) = tr.iter().find(|r| r.seq > recs[i].seq && r.seq < recs[rj].seq && r.m as usize != m) {
+                    info.violate(Violation::new("C09", "late-reset", format!(
+                        "module {} requested shutdown at {t} ns, but module {} ran ({:?}) before the shutdown was carried out", module_path(prog, m), module_path(prog, x.m as usize), x.ev)));
+                    return;
+                }
                 let until_t = if last_restart >= 0 { Some(t + last_restart as u64) } else { None };
                 downs[m].push(Down { from_t: t, reset_seq: recs[rj].seq, until_t, start_seq: None });
                 i = rj + 1;
